@@ -260,7 +260,10 @@ func c04Sims(base casefmt.SimConfig) []casefmt.SimConfig {
 	c.Strategy, c.Seed = "pct", base.Seed*131+11
 	c.ChangePoints = []int64{int64(base.Seed % 40), int64(40 + base.Seed%400)}
 	c.MapPolicy = "reverse"
-	return []casefmt.SimConfig{a, b, c}
+	d := base
+	d.Strategy, d.Seed, d.ChangePoints = "sync", base.Seed*977+5, nil
+	d.MapPolicy, d.MapSeed = "rotate", base.MapSeed*29+1
+	return []casefmt.SimConfig{a, b, c, d}
 }
 
 func evalC04(b *Bundle, r *Runner) []*Violation {
